@@ -291,7 +291,7 @@ func FirstDiff(a, b []Payload) string {
 	for i := 0; i < n; i++ {
 		if a[i].Canon() != b[i].Canon() {
 			if a[i].T != b[i].T {
-				return fmt.Sprintf("kind(%s≠%s)", Name(a[i].T), Name(b[i].T))
+				return "kind"
 			}
 			return Name(a[i].T) + "/" + diffField(a[i], b[i])
 		}
